@@ -48,13 +48,15 @@ def split_by_property(tot, prop):
 DEADLINE = {"quick": 240, "thorough": 1500}
 
 
-def hist_check(prop, tier, configs, depth, rule, assumptions, level="model_checking", long_cfgs=None, long_writes=(), maxday=2, deep=None, extra_groups=()):
+def hist_check(prop, tier, configs, depth, rule, assumptions, level="model_checking", long_cfgs=None, long_writes=(), maxday=2, deep=None, extra_groups=(), lag=None):
     """shared driver of C05 C06 C07 C09: exhaustive history enumeration (+ optional straight-line crossings).
     extra_groups: further (configs, depth) pairs. Every enumeration runs under a real-time deadline; a run that is cut reports
     exhaustive:false and the depth it completed on every configuration (iterative deepening), and still exits 0."""
     t = vlib.Timer()
     exe = build()
-    dl = ["--deadline-s", DEADLINE[tier]]
+    # every run records this property's violations only (the engine evaluates all rotation oracles; the others are counted):
+    # otherwise a change that breaks several properties could fill the engine's violation list with the other properties' entries
+    dl = ["--deadline-s", DEADLINE[tier], "--only-prop", prop]
     groups = [(configs, depth)] + list(extra_groups)
     args, kinds = [], []
     for gi, (cf, dp) in enumerate(groups):
@@ -63,9 +65,13 @@ def hist_check(prop, tier, configs, depth, rule, assumptions, level="model_check
     if deep:
         a = shard_args("hist", deep[0], vlib.NCPU, ["--depth", deep[1], "--maxday", 1, "--reduced", 1] + dl)
         args += a; kinds += [("deep", deep[1])] * len(a)
+    if lag:
+        # histories that also contain LAGGING records (message created yesterday, sent now: an asynchronous backlog across midnight)
+        a = shard_args("hist", lag[0], vlib.NCPU, ["--depth", lag[1], "--maxday", 1, "--reduced", 1, "--lag", 1] + dl)
+        args += a; kinds += [("lag", lag[1])] * len(a)
     for w in long_writes:
         for c in (long_cfgs or []):
-            args.append(["--mode", "long", "--configs", c, "--writes", w]); kinds.append(("long", w))
+            args.append(["--mode", "long", "--configs", c, "--writes", w, "--only-prop", prop]); kinds.append(("long", w))
     parts = seqxrun.run_shards(exe, args, DEADLINE[tier] + 900)
     fails = [p for p in parts if "_crash" in p or "_timeout" in p]
     good = [p for p in parts if p not in fails]
@@ -80,8 +86,9 @@ def hist_check(prop, tier, configs, depth, rule, assumptions, level="model_check
     tot["bound"] = "; ".join("histories <= %d ops%s on %d configurations%s" % (dp, "" if gi == 0 else "", len(cf), "" if done.get("g%d" % gi, dp) == dp else " (deadline: completed <= %d on all of them)" % done.get("g%d" % gi)) for gi, (cf, dp) in enumerate(groups)) + \
                    " over {W x up to 8 record kinds, D1..D%d, R}" % maxday + \
                    ("; %s consecutive rotating writes x 3 variants on %d configurations" % ("/".join(map(str, long_writes)), len(long_cfgs or [])) if long_writes else "") + \
-                   ("; histories <= %d ops over the reduced alphabet {W1, W(L), D1, R} on %d configurations%s" % (deep[1], len(deep[0]), "" if done.get("deep", deep[1]) == deep[1] else " (deadline: completed <= %d)" % done.get("deep")) if deep else "")
-    other = split_by_property(tot, prop)
+                   ("; histories <= %d ops over the reduced alphabet {W1, W(L), D1, R} on %d configurations%s" % (deep[1], len(deep[0]), "" if done.get("deep", deep[1]) == deep[1] else " (deadline: completed <= %d)" % done.get("deep")) if deep else "") + \
+                   ("; histories <= %d ops over {W1, W(L), lagging W1, lagging W(L), D1, R} on %d configurations" % (lag[1], len(lag[0])) if lag else "")
+    other = split_by_property(tot, prop) + tot["counters"].get("violations_of_other_properties_not_recorded", 0)
     tot["distinct_outcomes"] = tot["states"]
     return seqxrun.finish(prop, tier, level, tot, t, rule, assumptions, fails,
                           extra_cov={"configurations": sum(len(cf) for cf, _ in groups), "violations_of_other_properties_seen": other, "completed_depth": done})
